@@ -246,4 +246,41 @@ class TwoDirectories(object):
         finally:
             shutil.rmtree(root, ignore_errors=True)
 
-FAMILIES = [Graphs(), Suppliers(), Shapes(), TwoDirectories()]
+class SeveralPerFile(C07.SeveralPerFile):
+    """C07's worlds of multi-module files over two sources, judged for WHICH copy of a module is compiled."""
+    prefix = 'C08'
+    describe = C07.SeveralPerFile.describe + '; here: errors ignored, no borrowers; the text written for a module is that of the copy ' \
+        'the reference model names, and a copy travelling in another module\'s file never displaces a source that holds the module ' \
+        'under its own name'
+
+    def select(self, world):
+        return not world.get('borrowers') and world.get('opts', {}).get('ignoreErrors')
+
+    def extra(self, world, obs, sigbase):
+        vs = []
+        if 'result' not in obs:
+            return vs
+        ref = H.reference(world)
+        desc = 'world %s' % json.dumps(world, sort_keys=True)
+        for e in obs['log']:
+            if e[0] != 'write' or e[1] not in ('A', 'B'):
+                continue
+            m, data = e[1], e[2]
+            got = [v for v in (0, 1, H.MATE_VARIANT) if '.%d.%d"' % (100 + H.USER.index(m), 1 + v) in data]
+            want = ref['variant_of'].get(m)
+            if want is not None and got != [want]:
+                vs.append(('%s|text-of-another-copy-compiled|%s' % (sigbase, H.features(world)),
+                           'module %s: copy %r compiled, the model names copy %r\n%s' % (m, got, want, desc)))
+            # the property: 'the first source that holds a module supplies the text': a source holds m when it has a file
+            # called m whose module m has a symbol table
+            holders = [s for s in range(world.get('nsrc', 1))
+                       if world.get('src', {}).get('%s%d' % (m, s)) == 'ok' and
+                       any(c == m and ok for c, ok, var in (H.file_entries(world, s, m) or []))]
+            if got == [H.MATE_VARIANT] and holders:
+                vs.append(('%s|file-mate-copy-displaces-a-source-that-holds-the-module|%s' % (sigbase, H.features(world)),
+                           'module %s: the copy inside the other module\'s file was compiled although source(s) %r hold %s\n%s' % (
+                               m, holders, m, desc)))
+        return vs
+
+
+FAMILIES = [SeveralPerFile(), Graphs(), Suppliers(), Shapes(), TwoDirectories()]
